@@ -185,11 +185,37 @@ theorem finishOpt_inv {edns : Option Edns} {s s1 : State} (h : finishOpt edns s 
     simp only [M.bind_apply, M.modify_apply] at h
     exact Or.inr ⟨e, rfl, unwrap_ok_inv' h⟩
 
+theorem tsigTail_inv {ts : Tsig} {mc : Option (List UInt8)} {s s' : State} {len : Nat}
+    {mac : Option (List UInt8)}
+    (h : (do
+      M.modify fun s => { s with tsig := none, available := s.available + ts.reservedLen }
+      unwrap (addRr .none ts.rr.keyName T_TSIG QC_ANY (ttlFrom 0)
+        (tsigRdata ts.rr (tsigAlgName ts.mode) (mc.getD [])))
+      let len ← M.gets (·.cursor)
+      pure (len, mc) : M (Nat × Option (List UInt8))) s = (.ok (len, mac), s')) :
+    mac = mc ∧ len = s'.cursor ∧
+      addRr .none ts.rr.keyName T_TSIG QC_ANY (ttlFrom 0) (tsigRdata ts.rr (tsigAlgName ts.mode) (mc.getD []))
+        { s with tsig := none, available := s.available + ts.reservedLen } = (.ok (), s') := by
+  simp only [M.bind_apply, M.modify_apply] at h
+  cases hu : unwrap (addRr .none ts.rr.keyName T_TSIG QC_ANY (ttlFrom 0)
+      (tsigRdata ts.rr (tsigAlgName ts.mode) (mc.getD [])))
+      { s with tsig := none, available := s.available + ts.reservedLen } with
+  | mk r3 s3 =>
+    rw [hu] at h
+    cases r3 with
+    | err e => cases h
+    | panic => cases h
+    | ok u3 =>
+      simp only [M.gets_apply, M.pure_apply] at h
+      cases h
+      exact ⟨rfl, rfl, unwrap_ok_inv' hu⟩
+
 theorem finishTsig_inv {macFn : Tsig → List UInt8 → List UInt8} {tsig : Option Tsig} {s s' : State}
     {len : Nat} {mac : Option (List UInt8)} (h : finishTsig macFn tsig s = (.ok (len, mac), s')) :
     (tsig = none ∧ s' = s ∧ len = s.cursor) ∨ (∃ ts rdata, tsig = some ts ∧ len = s'.cursor ∧
       addRr .none ts.rr.keyName T_TSIG QC_ANY (ttlFrom 0) rdata
-        { s with tsig := none, available := s.available + ts.reservedLen } = (.ok (), s')) := by
+        { s with tsig := none, available := s.available + ts.reservedLen } = (.ok (), s') ∧
+      rdata = tsigRdata ts.rr (tsigAlgName ts.mode) (mac.getD [])) := by
   unfold finishTsig at h
   cases tsig with
   | none =>
@@ -200,19 +226,32 @@ theorem finishTsig_inv {macFn : Tsig → List UInt8 → List UInt8} {tsig : Opti
     by_cases hc : s.cursor > s.octets.size
     · rw [if_pos hc] at h; cases h
     rw [if_neg hc] at h
-    simp only [M.bind_apply, M.modify_apply] at h
-    generalize tsigRdata ts.rr (tsigAlgName ts.mode) _ = rdata at h
-    cases hu : unwrap (addRr .none ts.rr.keyName T_TSIG QC_ANY (ttlFrom 0) rdata)
-        { s with tsig := none, available := s.available + ts.reservedLen } with
-    | mk r3 s3 =>
-      rw [hu] at h
-      cases r3 with
-      | err e => cases h
-      | panic => cases h
-      | ok u3 =>
-        simp only [M.gets_apply, M.pure_apply] at h
-        cases h
-        exact Or.inr ⟨ts, rdata, rfl, rfl, unwrap_ok_inv' hu⟩
+    simp only [] at h
+    right
+    cases hmode : ts.mode with
+    | request a k =>
+      rw [hmode] at h
+      simp only [] at h
+      obtain ⟨e1, e2, e3⟩ := tsigTail_inv (ts := ts) (mc := some (macFn ts (s.octets.extract 0 s.cursor).toList))
+        (by rw [hmode]; exact h)
+      exact ⟨ts, _, rfl, e2, e3, by rw [e1]⟩
+    | response a m k =>
+      rw [hmode] at h
+      simp only [] at h
+      obtain ⟨e1, e2, e3⟩ := tsigTail_inv (ts := ts) (mc := some (macFn ts (s.octets.extract 0 s.cursor).toList))
+        (by rw [hmode]; exact h)
+      exact ⟨ts, _, rfl, e2, e3, by rw [e1]⟩
+    | subsequent a m k =>
+      rw [hmode] at h
+      simp only [] at h
+      obtain ⟨e1, e2, e3⟩ := tsigTail_inv (ts := ts) (mc := some (macFn ts (s.octets.extract 0 s.cursor).toList))
+        (by rw [hmode]; exact h)
+      exact ⟨ts, _, rfl, e2, e3, by rw [e1]⟩
+    | unsigned n =>
+      rw [hmode] at h
+      simp only [] at h
+      obtain ⟨e1, e2, e3⟩ := tsigTail_inv (ts := ts) (mc := none) (by rw [hmode]; exact h)
+      exact ⟨ts, _, rfl, e2, e3, by rw [e1]⟩
 
 theorem finishWithMac_finLay (macFn : Tsig → List UInt8 → List UInt8) (s : State) (hI : I s) (hL : SLay s)
     (len : Nat) (mac : Option (List UInt8)) (sF : State)
@@ -257,7 +296,7 @@ theorem finishWithMac_finLay (macFn : Tsig → List UInt8 → List UInt8) (s : S
       have h250 : T_TSIG = 250 := by decide
       -- the cursor only grows
       have hmono : s1.cursor ≤ sF.cursor := by
-        rcases hT with ⟨_, e, _⟩ | ⟨ts, rdata, _, _, hadd⟩
+        rcases hT with ⟨_, e, _⟩ | ⟨ts, rdata, _, _, hadd, _⟩
         · rw [e]; exact Nat.le_refl _
         · have := frame_addRr .none ts.rr.keyName T_TSIG QC_ANY (ttlFrom 0) rdata
             { s1 with tsig := none, available := s1.available + ts.reservedLen }
@@ -310,7 +349,7 @@ theorem finishWithMac_finLay (macFn : Tsig → List UInt8 → List UInt8) (s : S
       obtain ⟨o1, w1, l1, hq1, hr1, hty1, hpre1, ht1, _, hroom1⟩ := stage1
       -- stage 2: the TSIG record
       have c12 : 12 ≤ s1.cursor := by rw [cA] at hmonoA; omega
-      rcases hT with ⟨hts, e, hlen⟩ | ⟨ts, rdata, hts, hlen, hadd⟩
+      rcases hT with ⟨hts, e, hlen⟩ | ⟨ts, rdata, hts, hlen, hadd, _⟩
       · subst e
         refine ⟨w1, hlen, ?_, qs, rs, o1, [], hq1, by simpa using hr1, hql, hrl, hty1, by rw [hts]; rfl⟩
         intro i hi
